@@ -410,7 +410,22 @@ func c02Run(c *core.Ctx) {
 			}
 		}
 	}
-	r.Bound("families", fmt.Sprintf("untied all pairs<=%d + rim %v; all K=2 pools sides<=%d; all K=3 pools N<=%d; uniform ties m<=%d sides<=%d", untiedMax, rim, k2Max, k3Max, mMax, sideMax))
+	// tied pools beyond 36 values with a side of 13..25 (binomial coefficients C(n,13..25),
+	// n >= 36, enter the tied recursion only here)
+	for _, sz := range [][2]int{{13, 25}, {25, 13}, {25, 25}, {20, 30}} {
+		N := sz[0] + sz[1]
+		two := make([]int, N-2) // two tied pairs, everything else distinct
+		for i := range two {
+			two[i] = 1
+		}
+		two[0], two[len(two)-1] = 2, 2
+		for _, T := range [][]int{two, {N / 2, N - N/2}, {1, 1, N - 2}, {N - 13, 13}} {
+			if c.Mine() {
+				do(sz[0], sz[1], T, sz[0]*sz[1]/16+1)
+			}
+		}
+	}
+	r.Bound("families", fmt.Sprintf("tied pools of 38..50 values at 4 size pairs x 4 tie vectors; untied all pairs<=%d + rim %v; all K=2 pools sides<=%d; all K=3 pools N<=%d; uniform ties m<=%d sides<=%d", untiedMax, rim, k2Max, k3Max, mMax, sideMax))
 }
 
 func init() {
